@@ -281,6 +281,23 @@ class MeshTet1(MeshSimplex, Mesh3D):
                 nn = len(i)
                 nix = slice(ns, ns + nn)
 
+                # enlarge the preallocated arrays if necessary
+                if ns + nn > split_edge.shape[1]:
+                    grow = max(nn, split_edge.shape[1])
+                    split_edge = np.hstack((
+                        split_edge,
+                        np.zeros((3, grow), dtype=np.int32),
+                    ))
+                    nonconf = np.concatenate((
+                        nonconf,
+                        np.ones(grow, dtype=np.int8),
+                    ))
+                if nv + nn > p.shape[1]:
+                    p = np.hstack((
+                        p,
+                        np.zeros((3, max(nn, p.shape[1])), dtype=np.float64),
+                    ))
+
                 split_edge[0, nix] = i
                 split_edge[1, nix] = j
                 split_edge[2, nix] = np.arange(nv, nv + nn, dtype=np.int32)
@@ -300,6 +317,11 @@ class MeshTet1(MeshSimplex, Mesh3D):
                 ns += nn
 
             # add new elements
+            if nt + nm > t.shape[1]:
+                grow = max(nm, t.shape[1])
+                t = np.hstack((t, np.zeros((4, grow), dtype=np.int32)))
+                orig = np.concatenate((orig,
+                                       np.zeros(grow, dtype=np.int32)))
             t[:, marked] = np.vstack((t3, t0, t2, tnew))
             t[:, nt:(nt + nm)] = np.vstack((t2, t1, t3, tnew))
             orig[nt:(nt + nm)] = orig[marked]
